@@ -1254,6 +1254,10 @@ func (t *typeParser) parse() typeParserResult {
 			count--
 
 			for _, param := range last.class.params {
+				if param.name == nil {
+					// a collection is described as <hex name>:<type>; nothing to register without a name
+					continue
+				}
 				// decode the name
 				var name string
 				decoded, err := hex.DecodeString(*param.name)
